@@ -95,6 +95,13 @@ type unit struct {
 	bin string
 }
 
+// functions of the code under test that get a simulation seam (a nil-by-default hook variable the harness may
+// set; inserted into the scratch copy by the instrumenter, never into /repo)
+var (
+	seams    = []string{"lib/discov/internal:NewClient"}
+	argSeams = []string{"lib/discov/internal:stateWatcher.watch"}
+)
+
 // prepare builds the scratch copy for a property and returns it with its units.
 func prepare(id string, instrument bool) (string, []unit) {
 	base := os.Getenv("VERIF_SCRATCH")
@@ -126,7 +133,8 @@ func prepare(id string, instrument bool) (string, []unit) {
 		infra("go mod edit: %v\n%s", err, out)
 	}
 	if instrument {
-		out, err := run(scratch, goEnv(), filepath.Join(verifDir, "bin", "instr"), "-dir", scratch, "-pkgs", strings.Join(instrPkgs, ","))
+		out, err := run(scratch, goEnv(), filepath.Join(verifDir, "bin", "instr"), "-dir", scratch, "-pkgs", strings.Join(instrPkgs, ","),
+			"-seams", strings.Join(seams, ","), "-argseams", strings.Join(argSeams, ","))
 		if err != nil {
 			cleanup(scratch)
 			infra("instrumenter failed (a construct it cannot handle, or the tree does not type-check): %v\n%s", err, out)
@@ -585,6 +593,7 @@ func check(id, tier string, seed int64) int {
 	findings := loadFindings()
 	exit := 0
 	nviol := 0
+	unconfirmed := 0
 	var lines []string
 	var known []string
 	for _, a := range aggs {
@@ -601,8 +610,14 @@ func check(id, tier string, seed int64) int {
 			v := a.viols[c]
 			ok, out := confirm(a.unit, scratch, v.Replay, false)
 			if !ok {
+				// never reported: a violation must reproduce from its replay file in a fresh process
+				if len(out) > 3000 {
+					out = out[len(out)-3000:]
+				}
 				fmt.Fprintln(os.Stderr, out)
-				infra("violation %s/%s (seed %d) did not reproduce from its replay file in a fresh process: determinism bug of the simulator", id, c, v.Seed)
+				fmt.Fprintf(os.Stderr, "simctl: violation %s/%s (seed %d) did not reproduce from its replay file in a fresh process; it is not reported\n", id, c, v.Seed)
+				unconfirmed++
+				continue
 			}
 			if f := matchFinding(findings, id, a.harness, v); f != nil {
 				known = append(known, fmt.Sprintf("KNOWN-FINDING: property=%s %s [class %s, %d run(s), e.g. seed %d]", id, f.What, c, v.Count, v.Seed))
@@ -617,6 +632,11 @@ func check(id, tier string, seed int64) int {
 			nviol += v.Count
 			exit = 1
 		}
+	}
+	if unconfirmed > 0 && exit == 0 {
+		// something failed in a worker but nothing reproducible came out of it: tooling trouble, not a verdict
+		writeEvidence(id, tier, seed, cfg, aggs, nviol, time.Since(t0).Seconds(), simWall, known)
+		infra("%d violation(s) found by workers did not reproduce in a fresh process (determinism bug of the simulator or of a harness)", unconfirmed)
 	}
 	writeEvidence(id, tier, seed, cfg, aggs, nviol, time.Since(t0).Seconds(), simWall, known)
 	for _, k := range known {
